@@ -15,7 +15,7 @@ PYTHONPATH=$d/repo /venv/bin/python -m pytest -q -p no:cacheprovider --timeout=9
 echo "seed=$id demo_clean_rc=$rc_clean demo_mut_rc=$rc_mut pytest: $(cat $d/pytest.log)"
 res=""
 for p in "$@"; do
-  out=$(VERIF_REPO=$d/repo /verif/check $p 2>/dev/null | grep -c VIOLATION)
+  out=$(VERIF_EVIDENCE_DIR=$d/evidence VERIF_REPO=$d/repo /verif/check $p 2>/dev/null | grep -c VIOLATION)
   echo "  check $p violation_lines=$out"
   res="$res $p=$out"
 done
